@@ -1,14 +1,16 @@
 """C02: Unsolvable iff no solution exists."""
 import vlib
-from props import solverstream as ss, tracecheck as tc, enctie
+from props import solverstream as ss, tracecheck as tc, enctie, antie
 
 THEOREMS = ["C02_reference_correct", "C02_facts_hold", "C02_rup_sound", "C02_refutation_sound",
             "C02_trace_no_false_unsat", "C02_solvable_not_refuted",
-            "C02_encoder_adds_facts", "C02_encoder_sound"]
+            "C02_encoder_adds_facts", "C02_encoder_sound", "C02_analyze_sound", "C02_analyses_entail"]
 CHECKER = ("coqc Props/C02.v + Print Assumptions; harness solve_cases (debug+release, sync+yield, several activity "
            "parameters): (a) hook logs of every Unsolvable -> extracted check_unsat_log (facts, RUP of every learnt clause "
            "from its recorded antecedents, root-level conflict), (b) verdict compared with extracted u_solvableb, (c) extracted "
-           "encoder model (enc_solve) vs the dumped clause database of every synchronous run: clause-for-clause equality")
+           "encoder model (enc_run) vs the dumped clause database of every run: clause-for-clause equality, (d) extracted model of "
+           "Solver::analyze replayed on every conflict analysis of every hook log: learnt clause, derivation list, pops, backjump "
+           "level and asserted literal equal")
 
 
 def run(res, tier, seed, replay):
@@ -32,6 +34,7 @@ def run(res, tier, seed, replay):
     ref = ss.oracle_ref(recs)
     tc.annotate(recs)
     enctie.annotate(recs)
+    antie.annotate(recs)
     hist = {}
     for r in recs:
         k = ss.outcome_kind(r["obs"]["outcome"])
@@ -55,6 +58,11 @@ def run(res, tier, seed, replay):
             res.tie_break(f"encoder correspondence no longer checks for a run in {r['stream']}: the clauses added by the "
                           f"implementation differ from the encoder model (theorems C02_encoder_*): {r['enc']}; the verdict itself "
                           f"agrees with the reference", enctie.replay(r))
+        if k in ("sat", "unsat") and not antie.ok(r):
+            res.tie_break(f"conflict-analysis correspondence no longer checks for a run in {r['stream']}: a learnt clause, its derivation "
+                          f"list, the number of pops, the backjump level or the asserted literal differs from the model of Solver::analyze, "
+                          f"or a side condition of C02_analyze_sound fails: {r['an']}; the verdict itself agrees with the reference",
+                          dict(tc.trace_replay(r), analyses=r["an"]))
         if k == "sat" and want is False:
             res.violation(key, f"solver returned {r['obs']['outcome']['sat']} but no valid selection exists in {r['stream']}",
                           ss.replay_obj(r))
@@ -79,7 +87,7 @@ def run(res, tier, seed, replay):
                 "debug+release, sync+yield, activity parameters {default,(0,.95),(5,.5),(1,1)}; verdict compared with the "
                 "Coq-verified exhaustive reference; non-trivial = Ok/Unsolvable outcome on a universe with >= 4 solvables")
     res.extra.update({"verdict_vs_reference": {f"{a}/ref_solvable={b}": c for (a, b), c in sorted(hist.items())},
-                      "hangs": len(hangs)}, **tc.stats(recs), **enctie.stats(recs))
+                      "hangs": len(hangs)}, **tc.stats(recs), **enctie.stats(recs), **antie.stats(recs))
     return res.finish(CHECKER, vlib.TRUSTED_BASE,
                       ["termination of the CDCL loop is observed (poll watchdog), not proved",
                        "panics are reported by C04"])
